@@ -297,6 +297,71 @@ def parse_traces(text):
         traces[name] = vals
     return traces
 
+ENV_HELPERS_IR = """
+declare void @vf_env()
+declare zeroext i1 @vf_native_spurious(i32)
+%(defs)s
+"""
+def rewrite_atomics_for_env(text):
+    """interference obligations: in the native replay every atomic access of the code under test is
+    preceded by a call of the harness's vf_env(), exactly as engine/vf_rt.h does on the solver side
+    (a weak compare-exchange may also fail spuriously, consuming the same nondet value)"""
+    defs = {}
+    def helper(kind, bits, op=None):
+        t = 'i%d' % bits
+        if kind == 'load':
+            n = 'vf_nat_load_%d' % bits
+            defs[n] = 'define %s @%s(%s* %%p) {\n  call void @vf_env()\n  %%v = load atomic %s, %s* %%p seq_cst, align %d\n  ret %s %%v\n}' % (t, n, t, t, t, bits // 8, t)
+        elif kind == 'store':
+            n = 'vf_nat_store_%d' % bits
+            defs[n] = 'define void @%s(%s* %%p, %s %%v) {\n  call void @vf_env()\n  store atomic %s %%v, %s* %%p seq_cst, align %d\n  ret void\n}' % (n, t, t, t, t, bits // 8)
+        elif kind == 'rmw':
+            n = 'vf_nat_rmw_%s_%d' % (op, bits)
+            defs[n] = 'define %s @%s(%s* %%p, %s %%v) {\n  call void @vf_env()\n  %%o = atomicrmw %s %s* %%p, %s %%v seq_cst\n  ret %s %%o\n}' % (t, n, t, t, op, t, t, t)
+        else:
+            n = 'vf_nat_cas_%d' % bits
+            defs[n] = ('define { %s, i1 } @%s(%s* %%p, %s %%c, %s %%n, i32 %%weak) {\n  call void @vf_env()\n  %%cur = load atomic %s, %s* %%p seq_cst, align %d\n  %%eq = icmp eq %s %%cur, %%c\n  br i1 %%eq, label %%try, label %%real\n'
+                       'try:\n  %%sp = call zeroext i1 @vf_native_spurious(i32 %%weak)\n  br i1 %%sp, label %%fail, label %%real\n'
+                       'fail:\n  %%f0 = insertvalue { %s, i1 } undef, %s %%cur, 0\n  %%f1 = insertvalue { %s, i1 } %%f0, i1 false, 1\n  ret { %s, i1 } %%f1\n'
+                       'real:\n  %%r = cmpxchg %s* %%p, %s %%c, %s %%n seq_cst seq_cst\n  ret { %s, i1 } %%r\n}') % (t, n, t, t, t, t, t, bits // 8, t, t, t, t, t, t, t, t, t)
+        return n
+    def top_split(s):
+        """split at top-level commas (constant GEP expressions contain commas inside parentheses)"""
+        parts = []; depth = 0; cur = ''
+        for ch in s:
+            if ch in '([{<': depth += 1
+            elif ch in ')]}>': depth -= 1
+            if ch == ',' and depth == 0: parts.append(cur.strip()); cur = ''
+            else: cur += ch
+        parts.append(cur.strip()); return parts
+    ORD = r'(?:unordered|monotonic|acquire|release|acq_rel|seq_cst)'
+    def strip_ord(x): return re.sub(r'\s+(?:syncscope\("[^"]*"\)\s+)?' + ORD + r'(?:\s+' + ORD + r')?\s*$', '', x).strip()
+    out = []
+    for ln in text.split('\n'):
+        body = re.sub(r',\s*![-\w.]+\s+!\d+', '', ln)   # drop metadata attachments
+        m = re.match(r'^(\s*)(%[-\w.]+) = load atomic (?:volatile )?i(\d+), (.*)$', body)
+        if m and int(m.group(3)) in (8, 16, 32, 64):
+            ops = top_split(m.group(4)); ptr = strip_ord(ops[0]); b = m.group(3)
+            ptr = re.sub(r'^i\d+\*\s+', '', ptr)
+            out.append('%s%s = call i%s @%s(i%s* %s)' % (m.group(1), m.group(2), b, helper('load', int(b)), b, ptr)); continue
+        m = re.match(r'^(\s*)store atomic (?:volatile )?i(\d+) (.*)$', body)
+        if m and int(m.group(2)) in (8, 16, 32, 64):
+            ops = top_split(m.group(3)); val = ops[0]; ptr = re.sub(r'^i\d+\*\s+', '', strip_ord(ops[1])); b = m.group(2)
+            out.append('%scall void @%s(i%s* %s, i%s %s)' % (m.group(1), helper('store', int(b)), b, ptr, b, val)); continue
+        m = re.match(r'^(\s*)(%[-\w.]+) = atomicrmw (?:volatile )?(\w+) i(\d+)\* (.*)$', body)
+        if m and int(m.group(4)) in (8, 16, 32, 64):
+            ops = top_split(m.group(5)); ptr = ops[0]; val = re.sub(r'^i\d+\s+', '', strip_ord(ops[1])); b = m.group(4)
+            out.append('%s%s = call i%s @%s(i%s* %s, i%s %s)' % (m.group(1), m.group(2), b, helper('rmw', int(b), m.group(3)), b, ptr, b, val)); continue
+        m = re.match(r'^(\s*)(%[-\w.]+) = cmpxchg (weak )?(?:volatile )?i(\d+)\* (.*)$', body)
+        if m and int(m.group(4)) in (8, 16, 32, 64):
+            ops = top_split(m.group(5)); ptr = ops[0]; cmpv = re.sub(r'^i\d+\s+', '', ops[1]); newv = re.sub(r'^i\d+\s+', '', strip_ord(ops[2])); b = m.group(4)
+            out.append('%s%s = call { i%s, i1 } @%s(i%s* %s, i%s %s, i%s %s, i32 %d)' % (m.group(1), m.group(2), b, helper('cas', int(b)), b, ptr, b, cmpv, b, newv, 1 if m.group(3) else 0)); continue
+        out.append(ln)
+    text = '\n'.join(out)
+    hdr = ENV_HELPERS_IR % {'defs': '\n'.join(defs.values())}
+    if 'declare void @vf_env()' in text or re.search(r'^define[^\n]*@vf_env\(', text, re.M): hdr = hdr.replace('declare void @vf_env()\n', '')
+    return text + hdr
+
 def native_build(ob, wd):
     """native replay binary through the IR route: same TU, sanitizers on, cut functions replaced by exits"""
     exe = os.path.join(wd, 'replay.exe')
@@ -311,6 +376,8 @@ def native_build(ob, wd):
     if ob.get('cancel_oracle'):
         text = re.sub(r'(%[-\w.]+) = load atomic i8, i8\* (%[-\w.]+) [^\n]*', r'\1 = call i8 @vf_atomic_load_8(i8* \2)', text)
         if 'declare i8 @vf_atomic_load_8' not in text: text += '\ndeclare i8 @vf_atomic_load_8(i8*)\n'
+    if 'VF_HAVE_ENV' in (ob.get('cdefs') or []):
+        text = rewrite_atomics_for_env(text)
     ll2 = os.path.join(wd, 'native2.ll'); open(ll2, 'w').write(text)
     if cuts:
         ll3 = os.path.join(wd, 'native3.ll')
